@@ -140,6 +140,14 @@ TARGETED = [
                                                 {"name": "e2", "type": "Lvl"}]},
      {"type": "record", "name": "Tok", "fields": [{"name": "e2", "type": {"type": "enum", "name": "Lvl", "symbols": ["HI", "LO"]}}, {"name": "e", "type": "Lvl"}]},
      {"e": "HI", "e2": "MID"}),
+    # two fixed types with the same unqualified name in one reader union, the one whose full name
+    # equals the writer's by-name branch has another size: the other one matches (sizes and
+    # unqualified names), found by the random evolver
+    ([{"type": "record", "name": "R", "fields": [{"name": "h", "type": ["null", {"type": "fixed", "name": "Rec", "namespace": "a", "size": 3}]}]},
+      "a.Rec", {"type": "fixed", "name": "Rec", "namespace": "a.b", "size": 3}, "bytes"],
+     [{"type": "record", "name": "R", "fields": [{"name": "h", "type": ["null", {"type": "fixed", "name": "Rec", "namespace": "a", "size": 4}]}]},
+      "a.Rec", {"type": "fixed", "name": "Rec", "namespace": "a.b", "size": 3}, "bytes"],
+     b"abc"),
 ]
 
 
@@ -341,6 +349,11 @@ def run_shard(spec):
     while i < spec["n"] and not sh.out_of_time():
         i += 1
         case = gen_case(rng, dict(bytes_defaults=0.0, max_nodes=20), dict(size_budget=40, big=0.0, mappings=0.0, omit_defaults=0.0))
+        if rng.random() < 0.15:
+            from ..gen.evolve import decorate_field_aliases
+            case["schema"] = decorate_field_aliases(case["schema"], rng)
+            case["node"], case["env"] = RS.build(case["schema"])
+            sh.count("writer_field_aliases")
         sh.feat(case["features"])
         seed = rng.getrandbits(48)
         probe = Evolver(random.Random(seed)).evolve(case["schema"])[0]
